@@ -69,7 +69,7 @@ class Builder:
             self.objs[h['f']].add_attribute(
                 Attribute(nm.conc(h['n']), undomtok(h['dom']), untok(h['val']), untok(h['nul'])))
         elif a == 'AddConstraint':
-            self.model.ctcs.append(Constraint(h['n'], AST(build_node(h['ast'], nm))))
+            self.model.ctcs.append(Constraint(nm.conc_ctc(h['n']), AST(build_node(h['ast'], nm))))
         elif a == 'ReplaceConstraint':
             self.model.ctcs[-1].ast = AST(build_node(h['ast'], nm))
         # ---- in-place edits through public attributes and methods
@@ -104,7 +104,7 @@ class Builder:
             new.add_relation(rel)
         elif a == 'EditImport':
             sub = Feature('Imported sub-model root')
-            self.model.import_model(sub, self.model.root, [Constraint(c['name'], AST(build_node(c['ast'], nm))) for c in h['ctcs']])
+            self.model.import_model(sub, self.model.root, [Constraint(nm.conc_ctc(c['name']), AST(build_node(c['ast'], nm))) for c in h['ctcs']])
         elif a == 'EditAbstract':
             self.objs[h['f']].is_abstract = not self.objs[h['f']].is_abstract
         elif a == 'EditAttrVal':
@@ -195,7 +195,7 @@ def build_from_model(m, naming, strategy='none'):
     nm_ctc = naming
     if strategy == 'casectc':
         nm_ctc = CaseSwapped(naming)
-    ctcs = [Constraint(c['name'], AST(build_node(c['ast'], nm_ctc))) for c in _perm(m['ctcs'], cp)]
+    ctcs = [Constraint(naming.conc_ctc(c['name']), AST(build_node(c['ast'], nm_ctc))) for c in _perm(m['ctcs'], cp)]
     return FeatureModel(objs[m['root']], ctcs), objs
 
 
